@@ -115,4 +115,16 @@ def handleD (args : List String) : String :=
   | some (g, _) => replyD (tabulate g)
   | none => "bad-op"
 
+/-- protocol `c10e` (long thin graphs, several hundred vertices): eccentricities, diameter and radius only -/
+def replyE (g : G) : String :=
+  let so (o : Outcome Int) : String := match o with | .ok v => toString v | .panic => "panic" | .outOfFuel => "fuel"
+  "ecc=" ++ (match GDist.Model.eccentricity g with | .ok e => showIntsL e | .panic => "panic" | .outOfFuel => "fuel") ++
+  " diam=" ++ so (GDist.Model.diameterM g) ++
+  " rad=" ++ so (GDist.Model.radiusM g)
+
+def handleE (args : List String) : String :=
+  match GraphSpec.parse args with
+  | some (g, _) => replyE (tabulate g)
+  | none => "bad-op"
+
 end Drv.C10
